@@ -12,7 +12,8 @@ from ..oracles import helmert_ref as H
 
 RULE = ("every shipped set with a date reference epoch (complete enumeration x epoch fan) and random sets with random rates; "
         "epochs 1980-01-01 .. 2060-12-31 incl. the reference epoch, the days around it, leap days; points with |x|,|y|,|z| <= 1e7 m; "
-        "short call sequences that re-use the epoch with another set (and the set with another epoch); "
+        "short call sequences that re-use the epoch with another set (and the set with another epoch); random sets with and without "
+        "(rate) uncertainties; a covariance through conform14 and both ATRF wrappers in a third of the cases; "
         "non-trivial = epoch != reference epoch and a non-zero rate")
 ASSUMPTIONS = ["reference: the exact 7-parameter formula of C06 with p + rate x days / 365.25 (days = calendar days between the dates)",
                "random sets keep |rotation| + |rate| x 81 years below 60 arcsec (the 7-parameter formula's stated domain)"]
